@@ -105,11 +105,30 @@ def evaluate(ck, recs):
                 ck.failures.append(f)
 
 
+def run_capture(ck, binp, args, out_name="cases.jsonl"):
+    """run the harness; if it dies (a panic inside a goroutine spawned by the code under test cannot be recovered) report the
+    case that was running (its input is in <out>.pending) as a concrete failing input"""
+    n_before = len(ck.failures)
+    recs = ck.run_harness(binp, args, out_name=out_name)
+    if recs is None:
+        pend = os.path.join(ck.work, out_name + ".pending")
+        if os.path.exists(pend):
+            case = json.load(open(pend))
+            why = ck.failures[-1]["what"][:500] if len(ck.failures) > n_before else "harness died"
+            f = dict(kind="input", key="c10:%s:crash" % case.get("k"), case=case,
+                     what="smt %s (%s, key length %s): the implementation crashed the process (%s) on %s" % (
+                         case.get("k"), case.get("gen"), case.get("kl"), " ".join(why.split())[:300], json.dumps(case)[:500]),
+                     theorem_or_correspondence="harness c10 vs pkg/trie/smt (unrecoverable panic)")
+            f["spec_violated"] = True
+            ck.failures.append(f)
+    return recs
+
+
 def corpus(ck, binp):
     out = []
     root = os.path.dirname(os.path.dirname(os.path.dirname(os.path.abspath(__file__))))
     for p in sorted(glob.glob(os.path.join(root, "corpus", "C10", "*.jsonl"))):
-        recs = ck.run_harness(binp, ["-in", p], out_name="corpus_%s" % os.path.basename(p))
+        recs = run_capture(ck, binp, ["-in", p], out_name="corpus_%s" % os.path.basename(p))
         if recs:
             out.extend(recs)
     return out
@@ -125,7 +144,7 @@ def run(ck):
     else:
         args = ["-nroot", "800", "-nproof", "800", "-nev", "200", "-maxobs", "40"]
     recs = corpus(ck, binp)
-    main = ck.run_harness(binp, args)
+    main = run_capture(ck, binp, args)
     if main is None:
         return
     recs = recs + main
@@ -138,7 +157,8 @@ def run(ck):
                 s["obs"] = s["obs"][:2]
             ck.sample(s, limit=3)
     ck.cov["rule"] = ("histories of 1..8 batches of 0..10 operations (insert, overwrite, delete present/absent, duplicate key inside a "
-                      "batch, empty batch) over random, clustered (shared prefix up to the last 12 bits) and subtree-crossing keys of "
+                      "batch, empty batch, same-value rewrites, deletes of absent neighbours, whole no-op batches) over random, clustered "
+                      "(shared prefix up to the last 12 bits), prefix (shared first 1..3 bytes) and subtree-crossing keys of "
                       "1, 2, 4 and 32 bytes; trie re-created from its root (NewTrie(root)) before random batches; each final map also "
                       "inserted as one shuffled batch into a fresh trie; CalculateEventRoot on random events; proofs for 1..5 query keys "
                       "(present, absent neighbours, absent random, duplicates), each with up to 24 (quick) / 40 (thorough) single-field tamperings (root, value, "
@@ -161,7 +181,7 @@ def replay(ck, path):
     binp = ck.go_build("c10")
     inp = ck.work + "/replay_in.jsonl"
     open(inp, "w").write(json.dumps({k: v for k, v in case.items() if k not in ("obs", "roots", "sibs", "qs")}) + "\n")
-    recs = ck.run_harness(binp, ["-in", inp], out_name="replay.jsonl")
+    recs = run_capture(ck, binp, ["-in", inp], out_name="replay.jsonl")
     if recs is not None:
         ck.prove(extra_targets=["Corr/C10.vo"])
         evaluate(ck, recs)
